@@ -38,9 +38,21 @@
   RUNNING tasks 0.5 s after a critical task went to ERROR) are steps of their own
   (`hostLost`, `watchError`); whether a watcher is still alive is left to the caller.
 
+  A KILL call may FAIL at the caller (the master answers it with an error, or the scheduler
+  client is disconnected — with mesos-go every failed call drops the subscription, so the calls
+  that follow in the same loop fail too until the controller has re-subscribed): `State.refusing`
+  names the tasks whose KILL calls fail at present; it is an input of the model like `hosts`, set
+  by the fault step `killFault`. doKillTasks puts such a task back into the roster (unowned, still
+  running) and reports "could not kill some tasks" — the summary error is set by EVERY failing
+  kill and never reset (go/ast tie `C06_kill_error_is_code`); Cleanup / KillTasks / doCleanupTasks
+  hand it on and DestroyEnvironment answers it (`tcFin`); the pre-deployment cleanup of a creation
+  and the KillTasks of a creation's failure tail only log it.
+
   Not modelled here: reconciliation (C18), automatic environments, the kill
-  acknowledgements' blocking (KILL is answered at once: fairness premise "the
-  master eventually reports killed tasks").
+  acknowledgements' blocking (an accepted KILL is answered at once: fairness premise "the
+  master eventually reports killed tasks"), the acknowledgement KillTasks registers for a task
+  whose KILL call then fails (never taken back: a later KillTasks that names the task skips
+  it; Cleanup does not look at acknowledgements).
 -/
 import ControlModel.Basic
 
@@ -196,6 +208,7 @@ structure State where
   master : List MTask := []
   killLog : List (TaskId × Option EnvId) := []   -- every KILL call, with the owner of the task at that instant
   dead : List (EnvId × Nat × Nat) := []          -- deleted environments: calls started / cancelled in their life
+  refusing : List TaskId := []                   -- tasks whose KILL calls fail at present (refused by the master / client disconnected)
   creating : List Pending := []
   used : List EnvId := []                        -- environment ids handed out so far (uid.New is fresh)
   nextTask : TaskId := 1
@@ -220,14 +233,23 @@ def killOne (m : List MTask) (id : TaskId) : List MTask :=
 def killMany (m : List MTask) (ids : List TaskId) : List MTask :=
   m.map (fun x => if x.id ∈ ids then { x with killed := true, mesos := .terminal } else x)
 
-/-- manager.go `doKillTasks`: every task of the list leaves the roster; the
-    ones believed ACTIVE get a KILL call, the others are just dropped. -/
+/-- manager.go `doKillTasks`: every task of the list leaves the roster; the ones believed
+    ACTIVE get a KILL call, the others are just dropped. A task whose KILL call fails
+    (`s.refusing`) is appended to the roster again — as it was: unowned, still ACTIVE — and the
+    master's row for it is untouched (it keeps running). -/
 def doKill (s : State) (toKill : List Task) : State :=
   let ids := toKill.map (·.id)
   let act := toKill.filter (·.active)
-  { s with roster := s.roster.filter (fun t => decide (t.id ∉ ids)),
-           master := killMany s.master (act.map (·.id)),
+  let sent := act.filter (fun t => decide (t.id ∉ s.refusing))
+  let back := act.filter (fun t => decide (t.id ∈ s.refusing))
+  { s with roster := s.roster.filter (fun t => decide (t.id ∉ ids)) ++ back,
+           master := killMany s.master (sent.map (·.id)),
            killLog := s.killLog ++ act.map (fun t => (t.id, t.owner)) }
+
+/-- The error doKillTasks returns ("could not kill some tasks"): some KILL call failed. It is
+    set by every failing kill and never reset, whatever comes later in the loop. -/
+def killErr (s : State) (toKill : List Task) : Bool :=
+  toKill.any (fun t => t.active && decide (t.id ∈ s.refusing))
 
 /-- manager.go `Cleanup`: kill every unlocked task. -/
 def cleanup (s : State) : State := doKill s (s.roster.filter (fun t => !t.isLocked))
@@ -239,6 +261,15 @@ def killTasks (s : State) (ids : List TaskId) : State :=
 /-- server.go `doCleanupTasks`: an empty id list means "everything". -/
 def cleanupTasks (s : State) (ids : List TaskId) : State :=
   if ids = [] then cleanup s else killTasks s ids
+
+/-- The error Cleanup / KillTasks / doCleanupTasks hand on from doKillTasks. -/
+def cleanupErr (s : State) : Bool := killErr s (s.roster.filter (fun t => !t.isLocked))
+
+def killTasksErr (s : State) (ids : List TaskId) : Bool :=
+  killErr s (s.roster.filter (fun t => !t.isLocked && decide (t.id ∈ ids)))
+
+def cleanupTasksErr (s : State) (ids : List TaskId) : Bool :=
+  if ids = [] then cleanupErr s else killTasksErr s ids
 
 /-! ### release -/
 
@@ -430,10 +461,13 @@ structure DOracle where
   deriving Repr, Inhabited
 
 /-- The tail of doTeardownAndCleanup: any error of the (last) teardown is answered as an
-    error and the task cleanup is skipped. -/
+    error and the task cleanup is skipped; after a completed teardown the tasks are cleaned up
+    (unless they are to be kept) and an error of that cleanup — a KILL call that failed — is
+    answered as an error too (the environment is gone all the same). -/
 def tcFin (keep : Bool) (ids : List TaskId) (s' : State) (res : TRes) (tr : List TEv) : State × Res × List TEv :=
   match res with
-  | .ok => if keep then (s', Res.ok, tr) else (cleanupTasks s' ids, Res.ok, tr)
+  | .ok => if keep then (s', Res.ok, tr)
+           else (cleanupTasks s' ids, if cleanupTasksErr s' ids then Res.err else Res.ok, tr)
   | .hang => (s', Res.hang, tr)
   | .notfound => (s', Res.notfound, tr)
   | _ => (s', Res.err, tr)
@@ -721,6 +755,7 @@ inductive Step where
   | execLost (h : Host)                                  -- FAILURE{agent, executor}
   | agentLost (h : Host)                                 -- FAILURE{agent}
   | watchError (k : EnvId) (fails : List (TaskId × Bool))
+  | killFault (ids : List TaskId)                        -- from now on the KILL calls naming these tasks fail (and no others)
   deriving Repr, Inhabited
 
 /-! ### the pendingTeardownsCh rendezvous as a schedule
@@ -821,12 +856,13 @@ def step (s : State) (st : Step) : State × Res :=
   | .createSettle k o => createSettle s k o
   | .control k ev fails pre => control s k ev fails pre
   | .destroy k f a kp o => let r := destroy s k f a kp o; (r.1, r.2.1)
-  | .cleanup => (cleanup s, .ok)
-  | .killIds ids => (cleanupTasks s ids, .ok)
+  | .cleanup => (cleanup s, if cleanupErr s then .err else .ok)
+  | .killIds ids => (cleanupTasks s ids, if cleanupTasksErr s ids then .err else .ok)
   | .mesosStart k => (mesosStart s k, .ok)
   | .execLost h => (hostLost s h false, .ok)
   | .agentLost h => (hostLost s h true, .ok)
   | .watchError k fails => (watchError s k fails, .ok)
+  | .killFault ids => ({ s with refusing := ids }, .ok)
 
 def run (s : State) : List Step → State
   | [] => s
@@ -930,6 +966,28 @@ def settleSeq (s : State) (k : EnvId) (o : SettleOracle) : State × Res :=
       let c := settleConfigure s1 m
       if c.2.res = .okState .CONFIGURED then (c.1, c.2.res) else settleTail c.1 c.2
     else settleTail s1 m
+
+/-- What follows DEPLOY in one go: CONFIGURE if DEPLOY went through (and the failure tail if CONFIGURE fails), the
+    failure tail otherwise. `settleDeploy` followed by `settleRest` is `settleSeq`, i.e. `createSettle`. -/
+def settleRest (s : State) (m : Mid) : State × Res :=
+  if m.res = .noop then
+    let c := settleConfigure s m
+    if c.2.res = .okState .CONFIGURED then (c.1, c.2.res) else settleTail c.1 c.2
+  else settleTail s m
+
+/-- Two creations whose DEPLOY sections overlap (each environment has its own transition mutex, and acquireTasks'
+    reuse loop holds no lock at all): DEPLOY of `k1`, DEPLOY of `k2`, then what follows DEPLOY for each, `k1` first
+    if `firstRest`. The states passed through, in order. With reuseUnlockedTasks and the claims made beforehand
+    (`createClaim`) both DEPLOYs commit the same roster task: the second `SetParent` overwrites the first. -/
+def settleOverlapStates (s : State) (k1 k2 : EnvId) (o1 o2 : SettleOracle) (firstRest : Bool) : List State :=
+  match settleDeploy s k1 o1 with
+  | (s1, some m1, _) =>
+    match settleDeploy s1 k2 o2 with
+    | (s2, some m2, _) =>
+      if firstRest then [s1, s2, (settleRest s2 m1).1, (settleRest (settleRest s2 m1).1 m2).1]
+      else [s1, s2, (settleRest s2 m2).1, (settleRest (settleRest s2 m2).1 m1).1]
+    | (s2, none, _) => [s1, s2, (settleRest s2 m1).1]
+  | (s1, none, _) => [s1]
 
 /-- A DestroyEnvironment that found the transition mutex taken by the creation: the first
     TeardownEnvironment attempt of doTeardownAndCleanup, served in state `s`. `none`: it answered
